@@ -850,7 +850,7 @@ fn mark_hidden(rng: &mut Rng, v: &[H], hide_prob: usize, mode: usize, hidden_ids
     for h in v {
         match h {
             H::El(name, attrs, kids) => {
-                let can = !["html", "body", "tr", "tbody", "thead", "table", "br", "img"].contains(&name.as_str());
+                let can = !["html", "body", "br", "img"].contains(&name.as_str());
                 if can && rng.chance(1, hide_prob) {
                     *n += 1;
                     let mut at = attrs.clone();
@@ -858,7 +858,14 @@ fn mark_hidden(rng: &mut Rng, v: &[H], hide_prob: usize, mode: usize, hidden_ids
                     match mode {
                         0 => at.push(("class".into(), "hide".into())),
                         1 => at.push(("style".into(), "display:none".into())),
-                        2 => at.push(("style".into(), "height:0;overflow:hidden".into())),
+                        2 => {
+                            // the zero-height + hidden-overflow idiom in every spelling and order
+                            let h = *rng.pick(&["height:0", "height: 0px", "max-height:0", "max-height: 0em", "height:0 !important"]);
+                            let o = *rng.pick(&["overflow:hidden", "overflow-y: hidden", "overflow: hidden"]);
+                            let mid = *rng.pick(&["", "", "color:red;", "width:10px;"]);
+                            let st = if rng.chance(1, 2) { format!("{};{}{}", h, mid, o) } else { format!("{};{}{}", o, mid, h) };
+                            at.push(("style".into(), st));
+                        }
                         _ => {
                             let id = format!("hid{}", *n);
                             at.retain(|(k, _)| k != "id");
